@@ -90,6 +90,7 @@ def profiles_for(pid, tier):
                 ("shared-ids", dict(base, apps=["a", "b"], shared_mailbox_ids=True, client_mailboxes=["m1", "m2"], w_add=16,
                                     w_open=14, w_claim=2, w_allocate=0), N(80, 600))],
         "C02": [("general", dict(three, w_add=18, w_open=12, w_reconnect=8, w_sweep=4, w_restart=2), N(160, 1500)),
+                ("ints", dict(base, int_ids=True, w_add=18, w_open=12, w_reconnect=6), N(60, 400)),
                 ("restart-sweep", dict(base, apps=["a"], sides=["s1", "s2"], client_mailboxes=["m1"], names=["1"], w_claim=2,
                                        w_allocate=0, w_add=16, w_open=14, w_close=3, w_sweep=8, w_restart=5, w_connect=10,
                                        w_bigjump=0), N(160, 1500)),
@@ -97,7 +98,7 @@ def profiles_for(pid, tier):
                                     w_open=14, w_claim=2, w_allocate=0), N(80, 600))],
         "C03": [("general", dict(three, w_claim=16, w_release=8, w_close=8, w_restart=2, w_sweep=3, names=["1", "2", "7"]), N(200, 2000)),
                 ("late-claim", dict(_special="late-claim"), N(30, 200))],
-        "C04": [("general", dict(three, w_allocate=14, w_claim=8, w_release=8, names=["1", "2", "3", "03", "٣", "12", "x"],
+        "C04": [("general", dict(three, w_allocate=14, w_claim=8, w_release=8, names=["1", "2", "3", "03", "٣", "12", "x", "²", "①", "4²", " 5", "+6"],
                                  w_sweep=2), N(160, 1500)),
                 ("fill", dict(_special="fill"), N(24, 120))],
         "C05": [("third", dict(base, apps=["a"], sides=["s1", "s2", "s3", "s4"], names=["1", "2"], client_mailboxes=["m1"],
@@ -105,8 +106,14 @@ def profiles_for(pid, tier):
         "C06": [("two-apps", dict(base, apps=["a", "b"], sides=["s1", "s2"], names=["1", "2"], client_mailboxes=["m1"], w_sweep=3,
                                   w_restart=1), N(120, 1000)),
                 ("odd-strings", dict(base, apps=["a", "b", ""], sides=["s1", "", "s1 "], names=["1", ""], client_mailboxes=["m1", ""],
-                                     w_malformed=8, w_add=12, w_open=10), N(80, 600))],
-        "C07": [("general", dict(three, w_claim=14, w_release=12, w_close=8, w_list=8, names=["1", "2", "7"], w_reconnect=8), N(200, 2000))],
+                                     w_malformed=8, w_add=12, w_open=10), N(80, 600)),
+                ("id-reuse", dict(base, apps=["a", "b"], sides=["s1", "s2"], names=["1"], shared_mailbox_ids=True,
+                                  client_mailboxes=["m1"], w_open=14, w_add=12, w_close=6, w_drop=8, w_sweep=6, w_bigjump=6,
+                                  w_claim=2, w_allocate=0, w_restart=0), N(100, 800))],
+        "C07": [("general", dict(three, w_claim=14, w_release=12, w_close=8, w_list=8, names=["1", "2", "7"], w_reconnect=8), N(200, 2000)),
+                ("crowded-release", dict(base, apps=["a"], sides=["s1", "s2", "s3", "s4"], names=["1"], client_mailboxes=["m1"],
+                                         w_claim=16, w_release=16, w_list=6, w_open=2, w_add=1, w_close=3, w_allocate=0,
+                                         w_reconnect=8, w_connect=10), N(100, 800))],
         "C08": [("general", dict(three, w_close=14, w_open=12, w_claim=10, w_release=6, w_reconnect=8, names=["1", "2"],
                                  sides=["s1", "s2"]), N(200, 2000)),
                 ("third", dict(base, apps=["a"], sides=["s1", "s2", "s3"], names=["1"], client_mailboxes=["m1"], w_close=14,
@@ -127,9 +134,12 @@ def profiles_for(pid, tier):
                 ("binds", dict(base, usage=True, blur="rand", w_connect=20, w_reconnect=10, p_badcv=0.3, w_restart=2, w_sweep=3,
                                w_bigjump=3), N(80, 600))],
         "C17": [("malformed", dict(three, w_malformed=14), N(200, 2000)),
-                ("odd-strings", dict(base, apps=["a", "", "ü"], sides=["s1", "", "s\u0000x"], names=["1", "", "ñ"],
+                ("odd-strings", dict(base, apps=["a", "", "ü"], sides=["s1", "", "s\u0000x"], names=["1", "", "ñ", "²", "①"], w_allocate=8,
                                      client_mailboxes=["m1", ""], w_malformed=8), N(80, 600)),
-                ("general", dict(three, w_malformed=4, welcome=True, p_badcv=0.1), N(80, 600))],
+                ("general", dict(three, w_malformed=4, welcome=True, p_badcv=0.1), N(80, 600)),
+                ("crowded-then", dict(base, apps=["a"], sides=["s1", "s2", "s3", "s4"], names=["1"], client_mailboxes=["m1"],
+                                      w_claim=16, w_release=14, w_open=8, w_close=8, w_add=4, w_allocate=2, w_connect=10,
+                                      w_malformed=3), N(100, 800))],
         "C18": [("configs", dict(three, w_list=8, w_allocate=8), N(100, 800))],
     }
     return P.get(pid, [])
@@ -154,7 +164,13 @@ def special_history(pid, profile, seed):
             h.append({"op": "recv", "c": c, "t": t, "msg": {"type": "bind", "appid": "a", "side": "s%d" % (k % 3)}})
             h.append({"op": "recv", "c": c, "t": t, "msg": {"type": "claim", "nameplate": str(k)}, "fresh": "f%d" % k})
             h.append({"op": "drop", "c": c})
-        junk = r.sample(["x", "0", "07", "٣", "00", "1x", "012", "abc", " 1"], r.choice([0, 1, 2, 3]))
+        junk = r.sample(["x", "0", "07", "٣", "00", "1x", "012", "abc", " 1", "²", "①"], r.choice([0, 1, 2, 3]))
+        for hole in sorted(holes):
+            # a non-canonical spelling of a free value must not make it look taken
+            if r.random() < 0.6:
+                junk.append(r.choice(["0%d", " %d", "+%d", "%d ", "00%d"]) % hole)
+            if r.random() < 0.3:
+                junk.append("".join(chr(0x0660 + int(ch)) for ch in str(hole)))     # Arabic-Indic digits
         for name in junk:
             c += 1
             h.append({"op": "connect", "c": c})
@@ -240,6 +256,18 @@ def info():
 
 
 def run_oracles(pid, tr, meta):
+    import oracles as O
+    try:
+        return _run_oracles(pid, tr, meta)
+    except Exception as e:
+        # the oracle met data it has no reading for (e.g. a NULL where the schema's own writers
+        # always put a number): the implementation left the domain the property speaks about
+        import traceback
+        return [O.Finding(pid, "the implementation produced a state or answer outside the domain of the property's oracle", -1,
+                          {"exception": "%s: %s" % (type(e).__name__, e), "where": traceback.format_exc()[-500:]})]
+
+
+def _run_oracles(pid, tr, meta):
     import oracles as O
     import metamorphic as M
     f = []
